@@ -146,6 +146,7 @@ def run(tier, seed):
                 "oracle. non-trivial = >= 2 of {lifetime, type param, const param, where clause, borrowed return, qualifier, by-value deps, async}")
     n = 400 if tier == "quick" else 4000
     allc = {}
+    pairs = set()
     for unimock in (False, True):
         label = "on" if unimock else "off"
         cases = gen_cases(n, seed, unimock, label)
@@ -179,10 +180,19 @@ def run(tier, seed):
                 continue
             c01.check_case(c, rep)
             rep.bump("witness_lines", sum(1 for k in c.marks if k.startswith("w")))
+            for f in c.meta["fns"]:
+                sg = f["sig"]
+                dims = {"deps": f["deps_kind"], "ret": f["ret"], "async": f["async"], "qual": (f["unsafe"], f["extern"]), "mode": c.meta["mode"],
+                        "tparam": ("<T" in sg or "<U" in sg or ", T" in sg or ", U" in sg), "const": "const K" in sg, "lt": "'" in sg, "where": " where " in sg}
+                keys = sorted(dims)
+                for i in range(len(keys)):
+                    for j in range(i + 1, len(keys)):
+                        pairs.add((keys[i], str(dims[keys[i]]), keys[j], str(dims[keys[j]])))
             allc[c.id] = c
         for c in cases:
             allc[c.id] = c
         rep.bump("fixpoint_rounds", ws.rounds)
+    rep.extra["feature_value_pairs_covered"] = len(pairs)
     core.floors(rep, calls_compared=n // 2, witness_lines=n // 2)
     rep.assumptions = ["type identity is witnessed by fn-pointer coercion, which accepts a method that is *more* general than the pointer type",
                        "async fns: output type pinned through the run-time type_name of the awaited result instead of a pointer witness"]
